@@ -450,6 +450,7 @@ def mainH : Handler := fun inp impl => do
   let strip := getStrD inp "strip"
   let listener : Listener := match getStrD inp "listener" with
     | "https" => .https
+    | "https+pxy" => .https
     | "https+tcp+sni" => .httpsTcpSni
     | _ => .http
   let conn := (impl.getObjVal? "conn").toOption.getD Json.null
@@ -497,7 +498,7 @@ def mainH : Handler := fun inp impl => do
                            ("sts", Json.arr (mSts.map Json.str).toArray)]
   let agree := !isPanic && mStarted == started &&
     (!started || (mOk && reached && proj iHdr == mHdr && iHost == mHost && iSts == mSts))
-  let tlsOn := getStrD inp "listener" != "http"
+  let tlsOn := listener.tls
   let ws := eqFold (sentFirst wire "Upgrade") "websocket"
   -- an unparsable command-line value: fabio must refuse to run rather than run with something else
   let argBad := (getArrD inp "opts").toList.any fun e => getStrD e "src" == "arg" &&
@@ -521,6 +522,8 @@ def mainH : Handler := fun inp impl => do
       (if hostOpt == "" then "" else if hostOpt == "dst" then "/hostopt-dst" else "/hostopt-literal")) ++
     (if startsWith remote "[" then "/peer-ipv6" else "") ++
     (if getBoolD inp "interim" then "/upstream-1xx" else "") ++
+    (if getStrD inp "pxy" != "" then "/proxy-protocol" else
+      if getStrD inp "listener" == "http+pxy" || getStrD inp "listener" == "https+pxy" then "/pxy-listener-no-header" else "") ++
     (if getBoolD inp "h2" then "/h2" else "") ++ (if listener == .httpsTcpSni then "/sni-listener" else "") ++
     (if opts.isEmpty then "/defaults" else
       (if srcs.contains "arg" then "/arg" else "") ++ (if srcs.contains "env" || srcs.contains "envbare" then "/env" else "") ++
